@@ -79,6 +79,10 @@ pub enum Seg {
     S3,
     /// 0xff bytes
     F,
+    /// strongly skewed symbols (geometric over 12 values, no repeats long enough to match
+    /// often) with bursts of distinct once-only byte values: maximum-depth (14/15-bit) literal
+    /// codes occurring several in a row
+    K,
 }
 
 pub fn shape_name(segs: &[(Seg, usize)]) -> String {
@@ -126,6 +130,23 @@ pub fn build_shape(segs: &[(Seg, usize)], salt: u64) -> Vec<u8> {
                     let z = (x | 1).trailing_zeros().min(20) as u8;
                     let y = ((x >> 24) & 1) as u8;
                     out.push(b'a' + z * 2 + y);
+                }
+            }
+            Seg::K => {
+                let start = out.len();
+                let mut next_rare = 0x40u8;
+                for i in 0..n {
+                    let _ = start;
+                    // a burst of 6 distinct once-only values every 1777 bytes (at most 180 of them)
+                    if i % 1777 >= 1000 && i % 1777 < 1006 && next_rare < 0xf4 {
+                        out.push(next_rare);
+                        next_rare += 1;
+                    } else {
+                        let x = lcg.next_u32();
+                        let z = (x | (1 << 11)).trailing_zeros() as u8; // 0..=11, P(z) ~ 2^-(z+1)
+                        // alternate two value families so that few 3-byte matches exist
+                        out.push(if (x >> 20) & 1 == 0 { z } else { 0x20 + z });
+                    }
                 }
             }
             Seg::S3 => {
